@@ -272,6 +272,9 @@ func (s *Server) List(ctx context.Context, opts metav1.ListOptions) (runtime.Obj
 		})
 		snap.Items = items
 		return snap, nil
+	case "status":
+		// a Status object instead of a list: it has list metadata but no items
+		return &metav1.Status{ListMeta: snap.ListMeta, Status: "Failure", Message: "injected"}, nil
 	case "error":
 		return nil, ErrInjected
 	case "error+list":
@@ -343,11 +346,14 @@ func (s *Server) Watch(ctx context.Context, opts metav1.ListOptions) (watch.Inte
 		if f, ok = s.WatchFaults[n]; !ok {
 			f = s.DefaultWatch
 		}
-		s.WatchFailed = append(s.WatchFailed, f.Kind == "error" || f.Kind == "expired")
+		s.WatchFailed = append(s.WatchFailed, f.Kind == "error" || f.Kind == "expired" || f.Kind == "error-canceled")
 	})
 	switch f.Kind {
 	case "error":
 		return nil, ErrInjected
+	case "error-canceled":
+		// a connect error that wraps context.Canceled although the caller's context is alive
+		return nil, fmt.Errorf("connecting to server: %w", context.Canceled)
 	case "expired":
 		// 410 Gone as a connect error: "too old resource version" (the caller must not silently start from "now")
 		return nil, apierrors.NewResourceExpired("too old resource version: " + opts.ResourceVersion)
